@@ -11,7 +11,7 @@ PROPERTY = "C06"
 LEVEL = "exploration"
 NEED_EXT = True
 REQUIRED = ["L1.fit", "L1.labels_nearest", "L1.inertia", "L1.centre_range", "L1.predict", "L1.transform",
-            "L2.equal_to_kmeans", "hook._centers_dense", "L1.tiehunt_fits"]
+            "L2.equal_to_kmeans", "hook._centers_dense", "L1.tiehunt_fits", "L1.predict_int_batch"]
 RULE = ("data classes blobs / duplicates / integer lattice / n==k / k==1 / line / 1-D / float32 / large offset / "
         "outlier initial centres (empty clusters) / count tables (tie hunt: thousands of tiny fits, a hook on the "
         "E-step reports how many had a best iteration different from the last) x k 1-8 x init {k-means++, random, ndarray} x n_init x max_iter x tol; "
@@ -256,6 +256,25 @@ def run_case(case, ctx):
                               "data", cfg=cfg, centres=C[:3], lo=lo, hi=hi)
             ctx.check(1 <= m.n_iter_ <= max_iter, K + "n_iter-out-of-range", "n_iter_=%r, max_iter=%r" % (
                 m.n_iter_, max_iter), cfg=cfg)
+            # integer-dtype query batches (counts, ids): same nearest-centre semantics
+            if not f32:
+                for qname, Qi in (("int64", numpy.round(Xq).astype(numpy.int64)),
+                                  ("int-train-rows", numpy.round(X[:20]).astype(numpy.int64))):
+                    try:
+                        pi = numpy.asarray(m.predict(Qi))
+                        Ti = numpy.asarray(m.transform(Qi), dtype=float)
+                    except Exception as e:
+                        ctx.violation(K + "predict/raised/%s/int-batch" % type(e).__name__, str(e)[:150], cfg=cfg)
+                        continue
+                    ctx.hit("L1.predict_int_batch")
+                    Di = cdist(Qi.astype(float), C, "cityblock")
+                    oi = Di[numpy.arange(len(Qi)), numpy.clip(pi, 0, k - 1)]
+                    if pi.min() < 0 or pi.max() >= k or (oi > Di.min(axis=1) * (1 + 1e-9) + 1e-9).any():
+                        ctx.violation(K + "predict/not-nearest-centre/int-batch", "predict on an integer-dtype batch "
+                                      "(%s) returned a centre that is not Manhattan-nearest" % qname, cfg=cfg)
+                    if Ti.shape != Di.shape or not numpy.allclose(Ti, Di, rtol=1e-9, atol=1e-9):
+                        ctx.violation(K + "transform/not-manhattan-distances/int-batch", "transform on an "
+                                      "integer-dtype batch is not the Manhattan distance matrix", cfg=cfg)
             # predict / transform on new rows
             try:
                 p = numpy.asarray(m.predict(Xq))
